@@ -79,7 +79,7 @@ class Batch:
 
     def _spawn(self, idx, frm, count, extra=()):
         prog = os.path.join(self.tmp, "progress-%s-%d-%d" % (self.variant, idx, frm))
-        cmd = [self.binary, "worker", "--prop", self.prop, "--tier", self.tier, "--seed-base", str(self.seed), "--from", str(frm), "--count", str(count), "--progress", prog]
+        cmd = hb.command(self.variant) + ["worker", "--prop", self.prop, "--tier", self.tier, "--seed-base", str(self.seed), "--from", str(frm), "--count", str(count), "--progress", prog]
         if self.budget_s:
             cmd += ["--budget-s", str(self.budget_s)]
         cmd += list(extra)
@@ -95,7 +95,7 @@ class Batch:
         jobs = []
         for i, f in enumerate(files):
             prog = os.path.join(self.tmp, "progress-%s-b%d" % (self.variant, i))
-            cmd = [self.binary, "worker", "--prop", self.prop, "--tier", self.tier, "--seed-base", str(self.seed), "--batch", f, "--progress", prog]
+            cmd = hb.command(self.variant) + ["worker", "--prop", self.prop, "--tier", self.tier, "--seed-base", str(self.seed), "--batch", f, "--progress", prog]
             jobs.append({"p": subprocess.Popen(cmd, stdout=subprocess.PIPE, stderr=subprocess.PIPE, text=True, env=hb.run_env(self.variant)), "progress": prog, "file": f})
         for j in jobs:
             out, err = j["p"].communicate()
@@ -178,9 +178,9 @@ class Batch:
                     return d["scenario"]
             return None
         path = os.path.join(self.tmp, "trace-%s-%d" % (self.variant, index))
-        cmd = [self.binary, "worker", "--prop", self.prop, "--tier", self.tier, "--seed-base", str(self.seed), "--from", str(index), "--count", "1", "--trace", path]
+        cmd = hb.command(self.variant) + ["worker", "--prop", self.prop, "--tier", self.tier, "--seed-base", str(self.seed), "--from", str(index), "--count", "1", "--trace", path]
         try:
-            subprocess.run(cmd, stdout=subprocess.DEVNULL, stderr=subprocess.DEVNULL, timeout=120, env=hb.run_env(self.variant))
+            subprocess.run(cmd, stdout=subprocess.DEVNULL, stderr=subprocess.DEVNULL, timeout=120 if self.variant != "E" else 3600, env=hb.run_env(self.variant))
         except subprocess.TimeoutExpired:
             pass
         sc = None
@@ -202,6 +202,9 @@ def determinism_check(prop, tier, variant, seed, tmp, n=300):
     for nproc in (3, 1):
         b = Batch(prop, tier, variant, n, seed, tmp)
         b.run(nproc=nproc, extra=("--digests", "--max-violations", "1000000"))
+        if b.crashes:
+            # a worker died: the main batches will reconstruct and report the crash as a violation
+            return True, "skipped (a worker died during the self-check; reported through the main batch)"
         d = {}
         for s in b.summaries:
             for i, dg in s["digests"]:
@@ -241,7 +244,7 @@ def replay_cmd(path):
     ok, dt, _ = hb.build(variant)
     if not ok:
         harness_error("build of variant %s failed" % variant)
-    rp = mini.Replayer(hb.binary(variant), os.path.join(hb.build_root(), "tmp"), env=hb.run_env(variant))
+    rp = mini.Replayer(hb.command(variant), os.path.join(hb.build_root(), "tmp"), env=hb.run_env(variant), timeout=60 if variant != "E" else 3600)
     cls, viol, owned = rp.run_file(path)
     if cls is None:
         log("replay: no violation (the property holds on this scenario)")
@@ -254,12 +257,17 @@ def replay_cmd(path):
 def run_check(prop, tier, seed):
     cfg = PROPS[prop]
     t0 = time.time()
+    if cfg.get("miriflags"):
+        os.environ["HBSIM_MIRIFLAGS_EXTRA"] = cfg["miriflags"]
     log("check %s tier=%s VERIF_SEED=%d repo=%s" % (prop, tier, seed, hb.repo_path()))
     tmp = os.path.join(hb.build_root(), "tmp", "%s-%s-%d" % (prop, tier, os.getpid()))
     os.makedirs(tmp, exist_ok=True)
     plan = cfg[tier]
     scale = float(os.environ.get("HBSIM_SCALE", "1"))
-    plan = [(v, max(1, int(n * scale))) for v, n in plan]
+    plan = [(v, max(1, int(n * scale))) if v != "E" else (v, n) for v, n in plan]
+    only = os.environ.get("HBSIM_ONLY")
+    if only:
+        plan = [(v, n) for v, n in plan if v in only.split(",")] or plan[:1]
     build_s = {}
     for v in sorted(set(v for v, _ in plan)):
         ok, dt, _ = hb.build(v)
@@ -267,7 +275,7 @@ def run_check(prop, tier, seed):
         if not ok:
             harness_error("build of variant %s failed (hook or harness no longer compiles against the repository)" % v)
     # determinism self-check on this property's own profile
-    det_ok, det_msg = determinism_check(prop, tier, plan[0][0], seed, tmp, n=int(os.environ.get("HBSIM_DET_N", "300")))
+    det_ok, det_msg = determinism_check(prop, tier, plan[0][0] if plan[0][0] != "E" else "A", seed, tmp, n=int(os.environ.get("HBSIM_DET_N", "300")))
     if not det_ok:
         harness_error("determinism self-check failed: " + det_msg)
     log("determinism: " + det_msg)
@@ -343,7 +351,7 @@ def run_check(prop, tier, seed):
         if len(reported) >= int(os.environ.get("HBSIM_MAX_REPORTS", "3")):
             also_seen.append("%s in %s (%s), run index %s" % key[:1] + (sc["world"], viol.get("op_kind"), v["seed_index"]) if False else "%s world=%s op=%s run=%s" % (viol["class"], sc["world"], viol.get("op_kind"), v["seed_index"]))
             continue
-        rp = mini.Replayer(hb.binary(v["variant"]), tmp, env=hb.run_env(v["variant"]))
+        rp = mini.Replayer(hb.command(v["variant"]), tmp, env=hb.run_env(v["variant"]), timeout=60 if v["variant"] != "E" else 3600)
         if viol["class"].startswith("differential/"):
             # needs both back-ends: not minimised; the replay file carries the transcript of the first build
             os.makedirs(rdir, exist_ok=True)
@@ -362,7 +370,7 @@ def run_check(prop, tier, seed):
         cls0, viol0, owned0 = rp.run(sc)
         if cls0 is None:
             harness_error("violation %s of run %s did not reproduce on replay (nondeterminism in the harness)" % (viol["class"], v["seed_index"]))
-        small = mini.minimise(rp, sc, cls0, budget=int(os.environ.get("HBSIM_MIN_BUDGET", "600")))
+        small = mini.minimise(rp, sc, cls0, budget=int(os.environ.get("HBSIM_MIN_BUDGET", "600")) if v["variant"] != "E" else 12)
         cls1, viol1, owned1 = rp.run(small)
         if cls1 is None:
             small, viol1 = sc, viol0
